@@ -5,9 +5,14 @@ import Demeter.Uni.Basic
 import Demeter.Uni.Fee
 import Demeter.Uni.Json
 import Demeter.Uni.Handlers
+import Demeter.Uni.Kernel
+import Demeter.Uni.Ops
+import Demeter.Uni.Views
+import Demeter.Uni.Step
+import Demeter.Uni.OpJson
 namespace Demeter.Uni
 open Demeter.Drv
 
-def jHandlers : List (String × JHandler) := feeHandlers
+def jHandlers : List (String × JHandler) := feeHandlers ++ opHandlers
 
 end Demeter.Uni
